@@ -158,12 +158,12 @@ class Number(Parser):
         stream.take()
         while _isdigit(stream.peek()):
             out += stream.take()
-        try:
-            value = int(out)
-        except ValueError:
-            # more digits than int() converts (sys.get_int_max_str_digits)
+        # Numbers in RING are small counts.  Very long digit strings are
+        # refused: int() stops converting at sys.get_int_max_str_digits()
+        # digits, and sums of accepted numbers must stay printable too.
+        if len(out) > 18:
             stream.error('<number>')
-        output.append(value)
+        output.append(int(out))
 
     def __str__(self):
         return '<number>'
